@@ -7,6 +7,7 @@ replay on the real engine, contract validation of the traces, model-drift report
 
 Only the contract (Trace_WalrusAPI via vlib.engine.validate) raises violations. Differences between
 the engine's projected state and the design's expectation are MODEL-DRIFT lines (never a violation)."""
+import glob
 import gzip
 import json
 import os
@@ -49,13 +50,13 @@ TIERS = {
         "max_behaviours": 1500, "simulate": None, "timeout": 600,
     },
     "thorough": {
-        "mc": ["MC_WalrusBlocks_thorough.cfg", "MC_WalrusBlocks_two.cfg"],
+        "mc": ["MC_WalrusBlocks_thorough.cfg", "MC_WalrusBlocks_wide.cfg", "MC_WalrusBlocks_two.cfg"],
         "gen": "MC_WalrusBlocks_quick.cfg",
-        "gen_extra": ["MC_WalrusBlocks_two.cfg"],
+        "gen_extra": ["MC_WalrusBlocks_wide.cfg", "MC_WalrusBlocks_two.cfg"],
         "defects": ["MC_WalrusBlocks_defect_parser.cfg", "MC_WalrusBlocks_defect_budget0.cfg",
                     "MC_WalrusBlocks_defect_tailinit.cfg"],
         "known": [],
-        "max_behaviours": 12000, "simulate": ("MC_WalrusBlocks_sim.cfg", "num=600", "18"), "timeout": 3000,
+        "max_behaviours": 10000, "simulate": ("MC_WalrusBlocks_sim.cfg", "num=15", "18"), "timeout": 3000,
     },
 }
 
@@ -422,10 +423,7 @@ def blocks_pipeline(tier, use_cache=True, engine_bin_env=None, max_behaviours=No
         hist.add(load_histories(sres))
         sim_info = {"cfg": scfg, "num": num, "depth": depth, "histories": sres.get("histories", 0), "wall_s": sres["wall_s"]}
     regress, defect_info = regression_behaviours(td, use_cache=use_cache)
-    for cfg, cex in regress:
-        # the prefixes of a counterexample are histories of the defect configuration, not of the design as it
-        # is: they are replayed for the contract only (no expected projections)
-        pass
+    # (the counterexamples are behaviours of the *defect* configurations: replayed for the contract only)
     # 2. behaviours
     cap = max_behaviours or td["max_behaviours"]
     selected, n_max = select(hist, cap, C.seed())
@@ -438,6 +436,14 @@ def blocks_pipeline(tier, use_cache=True, engine_bin_env=None, max_behaviours=No
             reg_behs.append({"id": "wbreg_%s_%s" % (cfg[len("MC_WalrusBlocks_"):-4], be),
                              "cfg": {"backend": be, "mode": cex["mode"], "pe": cex["pe"], "proj": True, "topics": topics},
                              "ops": ops + drain_ops(topics, False)})
+    # committed regression behaviours (counterexamples of earlier model/engine versions)
+    for path in sorted(glob.glob(os.path.join(C.VERIF, "corpus", "blocks_*.ndjson"))):
+        with open(path) as f:
+            for line in f:
+                line = line.strip()
+                if line and not line.startswith("#"):
+                    b = json.loads(line)
+                    reg_behs.append({"id": "corpus_" + b["id"], "cfg": b["cfg"], "ops": b["ops"]})
     # 3. the real engine
     if engine_bin_env:
         traces = run_with_binary(behs + reg_behs, engine_bin_env, tag)
